@@ -13,7 +13,7 @@ from hypothesis import strategies as st
 import common
 
 VARIANTS = ["split_asm", "split_ucontext", "mmap_asm", "mmap_ucontext", "malloc_asm", "malloc_ucontext"]
-SIZES = [1024, 1025, 1536, 2047, 4096, 4097, 8192, 12345, 16384, 65536, 102400, 262144, 1048576, 1000003]
+SIZES = [1024, 1025, 1536, 2047, 4041, 4095, 4096, 4097, 8192, 12345, 16384, 49097, 49120, 49151, 49152, 49153, 65536, 102400, 262144, 1048576, 1000003]
 REG_POOL = [0, 1, 0xFFFFFFFFFFFFFFFF, 0x8000000000000000, 0x7FFFFFFFFFFFFFFF, 0xDEADBEEFCAFEF00D, 0x0123456789ABCDEF]
 
 RULE = ("Hypothesis generates switch scripts: 2-8 contexts (index 0 = the driving pthread) with stack sizes from {1 KiB .. 1 MiB, odd sizes, non-multiples of 16 and of the page size}, "
